@@ -367,6 +367,7 @@ func (c *Ctx) Eq(a, b *Term) *Term {
 	if a.S != b.S {
 		panic(fmt.Sprintf("smt: eq sort mismatch %v %v", a.S, b.S))
 	}
+	a, b = c.pushLow(a), c.pushLow(b)
 	if a == b {
 		return c.tt
 	}
@@ -586,8 +587,8 @@ func (c *Ctx) Bin(op Op, a, b *Term) *Term {
 		}
 	}
 	if c.AbstractMulDiv && w >= c.AbstractMinW && (op == OpBvMul || op == OpBvUDiv || op == OpBvURem) {
-		// keep multiplications by a constant interpreted
-		if !(op == OpBvMul && (a.IsConst() || b.IsConst())) {
+		// operations with a constant operand stay interpreted
+		if !(a.IsConst() || b.IsConst()) {
 			name := fmt.Sprintf("uf_%s_%d", opNames[op], w)
 			return c.UF(name, BV(w), a, b)
 		}
@@ -729,13 +730,43 @@ func (c *Ctx) Sext(a *Term, n int) *Term {
 	return c.mk(&Term{Op: OpSext, S: BV(a.S.W + n), Args: []*Term{a}, P0: n})
 }
 
+// pushLow normalises a truncation of an arithmetic term (see Low).
+func (c *Ctx) pushLow(a *Term) *Term {
+	if a.Op == OpExtract && a.P1 == 0 {
+		switch a.Args[0].Op {
+		case OpBvAdd, OpBvSub, OpBvMul, OpBvNeg:
+			return c.Low(a.Args[0], a.P0+1)
+		}
+	}
+	return a
+}
+
+// Low returns the w low bits of a. Unlike Extract it pushes the truncation
+// into sums, differences and products (whose low bits depend only on the low
+// bits of their operands), so that a narrow operation computed through a wide
+// one normalises to the narrow operation.
+func (c *Ctx) Low(a *Term, w int) *Term {
+	if w == a.S.W {
+		return a
+	}
+	switch a.Op {
+	case OpBvAdd, OpBvSub, OpBvMul:
+		return c.Bin(a.Op, c.Low(a.Args[0], w), c.Low(a.Args[1], w))
+	case OpBvNeg:
+		return c.BvNeg(c.Low(a.Args[0], w))
+	case OpIte:
+		return c.Ite(a.Args[0], c.Low(a.Args[1], w), c.Low(a.Args[2], w))
+	}
+	return c.Extract(a, w-1, 0)
+}
+
 // Resize zero- or sign-extends or truncates to w bits.
 func (c *Ctx) Resize(a *Term, w int, signed bool) *Term {
 	switch {
 	case a.S.W == w:
 		return a
 	case a.S.W > w:
-		return c.Extract(a, w-1, 0)
+		return c.Low(a, w)
 	case signed:
 		return c.Sext(a, w-a.S.W)
 	default:
